@@ -9,7 +9,7 @@
 (***************************************************************************)
 EXTENDS XotSerial, TLC, Json
 
-CONSTANTS MaxLen, Alphabet, Dump
+CONSTANTS MaxLen, AttrMaxLen, Alphabet, Dump
 
 RECURSIVE Strs(_)
 Strs(n) == IF n = 0 THEN {<<>>} ELSE Strs(n - 1) \cup {Append(s, c) : s \in {t \in Strs(n - 1) : Len(t) = n - 1}, c \in Alphabet}
@@ -28,7 +28,7 @@ Mk(shape, V, T) ==
                Nd("attr", 3, <<>>, "", "b", V), Nd("text", 2, <<>>, "", "", T), Nd("comm", 2, <<>>, "", "", <<120>>)>>
 
 VARIABLE F
-Init == \E shape \in {1, 2}, V \in Strs(MaxLen), T \in Strs(MaxLen) : F = [n |-> Mk(shape, V, T), cons |-> TRUE, eo |-> FALSE]
+Init == \E shape \in {1, 2}, V \in Strs(AttrMaxLen), T \in Strs(MaxLen) : F = [n |-> Mk(shape, V, T), cons |-> TRUE, eo |-> FALSE]
 Next == UNCHANGED F
 Spec == Init /\ [][Next]_F
 
